@@ -25,7 +25,11 @@ pub use types::{
 
 use dashmap::DashMap;
 use std::collections::hash_map::DefaultHasher;
+#[cfg(not(pytest_language_server_verif))]
 use std::collections::HashSet;
+// verification hook: solver-friendly set/map stand-ins of the harness crate (see /verif/DESIGN.md §9)
+#[cfg(pytest_language_server_verif)]
+use crate::verif_collections::HashSet;
 use std::hash::{Hash, Hasher};
 use std::path::{Path, PathBuf};
 use std::sync::Arc;
